@@ -661,6 +661,7 @@ struct StrArm {
 }
 
 struct StrMatch {
+    end: usize,         // after the closing brace
     head: Range<usize>, // `match SCRUT {` including the brace
     scrut: Range<usize>,
     arms: Vec<StrArm>,
@@ -759,6 +760,7 @@ impl<'ast> Visit<'ast> for BodyScan {
         }
         if any_str {
             self.str_matches.push(StrMatch {
+                end: br(n).end,
                 head: br(&n.match_token).start..br(&n.brace_token.span.open()).end,
                 scrut: br(&*n.expr),
                 arms,
@@ -969,7 +971,9 @@ fn handle_fn(
                     .get(n)
                     .ok_or_else(|| format!("string match {} not found ({} present)", n, scan.str_matches.len()))?;
                 let var = format!("__m{}", n);
-                edits.replace(m.head.clone(), format!("{{ let {} = {}; ", var, &src[m.scrut.clone()]));
+                // `match SCRUT { __mN => { if .. } }` keeps temporaries of SCRUT alive like the original match did
+                edits.replace(m.head.clone(), format!("match {} {{ {} => {{ ", &src[m.scrut.clone()], var));
+                edits.insert(m.end, " }");
                 for (k, a) in m.arms.iter().enumerate() {
                     if a.has_guard {
                         return Err("match_str: arm outside the supported subset (R5)".into());
@@ -1019,6 +1023,16 @@ fn handle_fn(
                 let want = e["count"].as_u64();
                 let any = e["count"].as_str() == Some("any");
                 let opt = e["count"].as_str() == Some("opt");
+                let nth = e["nth"].as_u64();
+                let ms = if let Some(k) = nth {
+                    if (k as usize) < ms.len() {
+                        vec![ms[k as usize].clone()]
+                    } else {
+                        return Err(format!("lost anchor: `{}` has {} matches, wanted occurrence #{}", from, ms.len(), k));
+                    }
+                } else {
+                    ms
+                };
                 if !(any && !ms.is_empty()) && !opt && ms.len() as u64 != want.unwrap_or(1) {
                     return Err(format!(
                         "lost anchor: `{}` matched {} times, expected {}",
